@@ -199,9 +199,14 @@ def dblookup(shape):
     eng = engine()
     sim = chain.Sim(activation=0)
     sim.collide = {frozenset(('ghost', 'b1t1')), frozenset(('ghost', 'b0t0'))}
+    specs = [{'cb': 'A'}, {'cb': 'B', 'txs': [{'ins': 1, 'outs': shape['outs']}]}]
+    if shape.get('live_collide'):
+        # two LIVE outputs may share prefix and index: the candidate scan must go past the first
+        specs = [{'cb': 'A'}, {'cb': 'B'}, {'cb': 'C', 'txs': [{'ins': 1, 'outs': shape['outs']}]}]
+        sim.collide = {frozenset(('b1t0', 'b2t1')), frozenset(('ghost', 'b2t1'))}
     try:
         sim.open()
-        for i, spec in enumerate([{'cb': 'A'}, {'cb': 'B', 'txs': [{'ins': 1, 'outs': shape['outs']}]}]):
+        for i, spec in enumerate(specs):
             sim.advance(sim.gen_block(spec, f'b{i}'))
         sim.flush(True)
         live = sim.utxos()
@@ -216,8 +221,8 @@ def dblookup(shape):
         handed = []
 
         class Api(mpmod.MemPoolAPI):
-            async def height(self): return 1
-            def cached_height(self): return 1
+            async def height(self): return len(specs) - 1
+            def cached_height(self): return len(specs) - 1
             def db_height(self): return sim.db.state.height
             async def mempool_hashes(self): return [hash_to_hex_str(h) for h in order]
             async def raw_transactions(self, hex_hashes): return [b'RAW' + bytes(reversed(bytes.fromhex(h))) for h in hex_hashes]
@@ -263,13 +268,14 @@ def dblookup(shape):
 
 
 KERNELS.append(
-    Kernel('DBLOOKUP', dblookup, lambda tier: [{'outs': 'AC'}] + ([{'outs': 'SA'}] if tier == 'thorough' else []),
+    Kernel('DBLOOKUP', dblookup, lambda tier: [{'outs': 'AC'}, {'outs': 'AC', 'live_collide': True}] + ([{'outs': 'SA'}, {'outs': 'SA', 'live_collide': True}] if tier == 'thorough' else []),
            desc='mempool refresh against the real DB.lookup_utxos with a missing outpoint free to collide on prefix+index',
            encodes=['electrumx/server/db.py:DB.lookup_utxos', 'electrumx/server/mempool.py:MemPool._fetch_and_accept',
                     '_accept_transactions', '_process_mempool'],
            bounds='2-block flushed symbolic chain (tx-hash prefixes, values symbolic), one mempool transaction spending '
                   'any live output (solver-enumerated), one spending an absent outpoint whose hash may share the 4-byte '
-                  'prefix with either chain transaction, index 0 or 1, both delivery orders',
+                  'prefix with either chain transaction, index 0 or 1, both delivery orders; second shape: 3 blocks with '
+                  'two LIVE outputs free to share prefix and index',
            outside='more transactions; symbolic mempool transaction hashes (they travel as hex strings)',
            assumptions=['LevelDB modelled by MemStore', 'the absent outpoint differs from every indexed outpoint'],
            witnesses=1, prescribe=('sha256',)))
